@@ -124,6 +124,9 @@ func runHist(ci interface{}, s *vkit.Stats) error {
 			if corpus.IfaceRan[m.Tag]-before != 1 {
 				return fmt.Errorf("%s: the variable is not mocked but the real implementation did not run", where)
 			}
+			if id := ii.ImplID(v); id != 100+v {
+				return fmt.Errorf("%s: the variable is not mocked and must hold the implementation object it held before (id %d); the object it holds now reads id %#x (gc-since=%v)", where, 100+v, id, gcSince)
+			}
 			return nil
 		}
 		if ii.IsNil(v) {
@@ -304,6 +307,12 @@ func runHist(ci interface{}, s *vkit.Stats) error {
 			if builders[bi] == nil || !live[bi] {
 				continue
 			}
+			if vkit.Pick(op.I[3], 2) == 0 {
+				// a collection (and heap reuse) right before the Reset: whatever the mock keeps for the restore must have survived it
+				vkit.GC()
+				vkit.ChurnSmall(60000)
+				gcSince = true
+			}
 			if pv := guard(func() { builders[bi].Reset() }); pv != nil {
 				return fmt.Errorf("step %d: Reset panicked: %v", step, pv)
 			}
@@ -322,6 +331,14 @@ func runHist(ci interface{}, s *vkit.Stats) error {
 					tt.slots = map[int]*slot{}
 					if w := ii.Words(vv); w != tt.saved {
 						return fmt.Errorf("step %d: after Reset variable %d of %s holds words %#x, it held %#x before it was mocked", step, vv, ii.Name, w, tt.saved)
+					}
+					if tt.real {
+						if id := ii.ImplID(vv); id != 100+vv {
+							return fmt.Errorf("step %d: after Reset variable %d of %s points at an object reading id %#x, the implementation it held before has id %d (gc while mocked: %v)", step, vv, ii.Name, id, 100+vv, gcSince)
+						}
+						if gcSince {
+							s.Class("reset-restores-real-implementation-after-gc")
+						}
 					}
 					s.Class("reset-restores-variable")
 					nontrivial = true
